@@ -1,7 +1,8 @@
 """C06 — the parser builds the tree dictated by FEEL precedence and associativity.
 
 Three links (DESIGN.md §6 C06):
- (1) coq/C06/Proofs.v: Spec theorems for all trees of the operator fragment (round trip of the minimal / full rendering, needed parentheses);
+ (1) coq/C06/Proofs.v, Fuel.v, Needed.v: Spec theorems for all trees of the operator fragment (round trip of the minimal / full rendering;
+     every pair of parentheses of the minimal rendering is needed, by a counting soundness invariant of the parser);
  (2) coq/C06/TablesProofs.v: the LALR tables regenerated from feel-parser/src/lalr.rs on this run give the Spec's tree on every ordered
      pair and triple of operators (finite, vm_compute); when that obligation breaks, the disagreeing token lists are computed by the model
      and replayed on the real parser to obtain a failing input;
@@ -1115,5 +1116,5 @@ def replay(ctx, path):
 
 MANIFEST = dict(
     technique='Coq proof (round trip of a precedence-climbing Spec parser for all trees; finite theorem on the LALR tables regenerated from lalr.rs every run) with parser/model correspondence',
-    text='coq/Props/C06.v: the committed LALR tables, translated from feel-parser/src/lalr.rs on every run, are proved (vm_compute, bound stated) to build on every ordered pair and triple of operators the tree the Spec parser dictates; the Spec theorems hold for all trees of the operator fragment; string-literal decoding has its own model. The real lexer, driver and actions are tied to the Spec by parsing generated trees of the whole language in minimal / full / one-pair-removed renderings under token-preserving layouts and comparing AstNode trees.',
+    text='coq/Props/C06.v: the committed LALR tables, translated from feel-parser/src/lalr.rs on every run, are proved (vm_compute, bound stated) to build on every ordered pair and triple of operators the tree the Spec parser dictates; the Spec theorems hold for all trees of the operator fragment (no bound): both renderings round-trip (C06_roundtrip_*_tokens), and every pair of parentheses of the minimal rendering is needed (C06_needed_paren / C06_needed_paren_at / C06_all_needed, from the counting soundness invariant C06_min_rendering_minimal: any token list that parses to t has at least the parentheses of render_min t); string-literal decoding has its own model. The real lexer, driver and actions are tied to the Spec by parsing generated trees of the whole language in minimal / full / one-pair-removed renderings under token-preserving layouts and comparing AstNode trees.',
     note='Trusted: Coq kernel + vm_compute, lalr2coq.py, the Spec reading of feel.y lines 73-90, harness dv ast, Python renderer for binders/collections (not covered by the Spec theorems).')
